@@ -87,6 +87,10 @@ def flipping_cycles(rng, n):
             ops = []
             fr = [list(x) for x in frames]
             k = rng.choice([1, 1, 2])
+            if rng.random() < 0.25:
+                # a one-shot query on the same object, before the next
+                # stack operations (it must leave the stack as it found it)
+                ops.append(['is_sat', B.to_json(world.formula(2))])
             for _ in range(k):
                 c = rng.random()
                 if c < 0.25 and len(fr) > 1:
@@ -340,7 +344,7 @@ def run(rep):
     rng = random.Random(rep.seed * 32452843 % (2 ** 31) + rep.shard)
     rep.distinct_winners = set()
     quick = rep.tier == 'quick'
-    n = 60 if quick else 1500
+    n = 28 if quick else 1500
     kinds = ['order', 'order', 'faults', 'faults', 'allfail', 'dup',
              'mixed', 'mixed', 'shortcut']
     j = 0
